@@ -172,58 +172,72 @@ def directiveResult (ls : LoadState) (r : Procs × GoalResult) : LoadState × Op
   | .raisedIso e => (ls', some (.iso e))
   | .raisedBall t => (ls', some (.ball t))
 
-/-- `VM.compile`, the read loop, with `VM.directive` inlined.  Returns the state reached and the
-    error, if any (the state matters also when there is an error: it holds the live table). -/
+/-- what processing one item means for the read loop -/
+inductive Step where
+  /-- go on with the remaining items -/
+  | next (ls : LoadState)
+  /-- `include/1`: go on with these items first (same staging text, no flush at their end) -/
+  | splice (items : List Item) (ls : LoadState)
+  /-- return this error -/
+  | stop (ls : LoadState) (e : LoadErr)
+
+/-- `dynamic/1`, `multifile/1`, `discontiguous/1` -/
+def declare (ls : LoadState) (a : Term) (f : UProc → UProc) : Step :=
+  match forEachUserDefined ls.tx a f with
+  | .ok tx' => .next { ls with tx := tx' }
+  | .error e => .stop ls e
+
+/-- `VM.directive` -/
+def directive (fs : FS) (call : Call) (ls : LoadState) (d : Term) : Step :=
+  match flush ls.tx with
+  | .error e => .stop ls e
+  | .ok tx =>
+    let ls := { ls with tx := tx }
+    match d with
+    | .app "dynamic" (.cons a .nil) => declare ls a (fun u => { u with dynamic := true, isPublic := true })
+    | .app "multifile" (.cons a .nil) => declare ls a (fun u => { u with multifile := true })
+    | .app "discontiguous" (.cons a .nil) => declare ls a (fun u => { u with discontiguous := true })
+    | .app "initialization" (.cons g .nil) => .next { ls with tx := { tx with goals := tx.goals ++ [g] } }
+    | .app "include" (.cons f .nil) =>
+      match openFile fs f with
+      | .ok items => .splice items ls
+      | .error e => .stop ls e
+    | g =>
+      match directiveResult ls (call ls.procs g) with
+      | (ls', none) => .next ls'
+      | (ls', some e) => .stop ls' e
+
+/-- a clause: `piArg(et)` (for a rule `piArg(head)`), flush when the predicate changes,
+    `compile`, append to the run -/
+def stageClause (ls : LoadState) (t : Term) : Step :=
+  match clausePI t with
+  | .error e => .stop ls (.iso e)
+  | .ok pi =>
+    let flushed := match ls.tx.buf with
+      | (pi0, _) :: _ => if pi ≠ pi0 then flush ls.tx else .ok ls.tx
+      | [] => .ok ls.tx
+    match flushed with
+    | .error e => .stop ls e
+    | .ok tx =>
+      match DB.compile t with
+      | .error e => .stop { ls with tx := tx } (.iso e)
+      | .ok raws => .next { ls with tx := { tx with buf := tx.buf ++ raws.map fun r => (pi, r) } }
+
+def stepItem (fs : FS) (call : Call) (ls : LoadState) : Item → Step
+  | .syntaxError => .stop ls .syntax
+  | .term (.app ":-" (.cons d .nil)) => directive fs call ls d
+  | .term t => stageClause ls t
+
+/-- `VM.compile`, the read loop.  Returns the state reached and the error, if any (the state
+    matters also when there is an error: it holds the live table). -/
 def compileLoop (fs : FS) (call : Call) : Nat → List Item → LoadState → LoadState × Option LoadErr
   | 0, _, ls => (ls, some .outOfFuel)
   | _ + 1, [], ls => (ls, none)
-  | _ + 1, .syntaxError :: _, ls => (ls, some .syntax)
-  | fuel + 1, .term t :: rest, ls =>
-    match t with
-    | .app ":-" (.cons d .nil) =>
-      -- directive
-      match flush ls.tx with
-      | .error e => (ls, some e)
-      | .ok tx =>
-        let ls := { ls with tx := tx }
-        match d with
-        | .app "dynamic" (.cons a .nil) =>
-          match forEachUserDefined tx a (fun u => { u with dynamic := true, isPublic := true }) with
-          | .ok tx' => compileLoop fs call fuel rest { ls with tx := tx' }
-          | .error e => (ls, some e)
-        | .app "multifile" (.cons a .nil) =>
-          match forEachUserDefined tx a (fun u => { u with multifile := true }) with
-          | .ok tx' => compileLoop fs call fuel rest { ls with tx := tx' }
-          | .error e => (ls, some e)
-        | .app "discontiguous" (.cons a .nil) =>
-          match forEachUserDefined tx a (fun u => { u with discontiguous := true }) with
-          | .ok tx' => compileLoop fs call fuel rest { ls with tx := tx' }
-          | .error e => (ls, some e)
-        | .app "initialization" (.cons g .nil) =>
-          compileLoop fs call fuel rest { ls with tx := { tx with goals := tx.goals ++ [g] } }
-        | .app "include" (.cons f .nil) =>
-          match openFile fs f with
-          | .ok items => compileLoop fs call fuel (items ++ rest) ls
-          | .error e => (ls, some e)
-        | g =>
-          match directiveResult ls (call ls.procs g) with
-          | (ls', none) => compileLoop fs call fuel rest ls'
-          | (ls', some e) => (ls', some e)
-    | _ =>
-      -- clause: `piArg(et)`, for a rule `piArg(head)`
-      match clausePI t with
-      | .error e => (ls, some (.iso e))
-      | .ok pi =>
-        let flushed := match ls.tx.buf with
-          | (pi0, _) :: _ => if pi ≠ pi0 then flush ls.tx else .ok ls.tx
-          | [] => .ok ls.tx
-        match flushed with
-        | .error e => (ls, some e)
-        | .ok tx =>
-          match DB.compile t with
-          | .error e => ({ ls with tx := tx }, some (.iso e))
-          | .ok raws =>
-            compileLoop fs call fuel rest { ls with tx := { tx with buf := tx.buf ++ raws.map fun r => (pi, r) } }
+  | fuel + 1, it :: rest, ls =>
+    match stepItem fs call ls it with
+    | .next ls' => compileLoop fs call fuel rest ls'
+    | .splice items ls' => compileLoop fs call fuel (items ++ rest) ls'
+    | .stop ls' e => (ls', some e)
 
 /-- the commit loop of `VM.Compile` -/
 def commit (procs : Procs) (staged : Table UProc) : Procs :=
@@ -245,13 +259,19 @@ def runGoals (call : Call) : List Term → Procs → Procs × Option LoadErr
     | (ps', .raisedIso e) => (ps', some (.iso e))
     | (ps', .raisedBall t) => (ps', some (.ball t))
 
-/-- `VM.Compile`: the table afterwards and the error returned, if any -/
-def Compile (fs : FS) (call : Call) (fuel : Nat) (procs : Procs) (items : List Item) : Procs × Option LoadErr :=
+/-- everything `VM.Compile` does BEFORE the commit loop: the read loop and the final flush -/
+def stage (fs : FS) (call : Call) (fuel : Nat) (procs : Procs) (items : List Item) : LoadState × Option LoadErr :=
   match compileLoop fs call fuel items ⟨procs, Text.empty⟩ with
-  | (ls, some e) => (ls.procs, some e)
+  | (ls, some e) => (ls, some e)
   | (ls, none) =>
     match flush ls.tx with
-    | .error e => (ls.procs, some e)
-    | .ok tx => runGoals call tx.goals (commit ls.procs tx.clauses)
+    | .error e => (ls, some e)
+    | .ok tx => ({ ls with tx := tx }, none)
+
+/-- `VM.Compile`: the table afterwards and the error returned, if any -/
+def Compile (fs : FS) (call : Call) (fuel : Nat) (procs : Procs) (items : List Item) : Procs × Option LoadErr :=
+  match stage fs call fuel procs items with
+  | (ls, some e) => (ls.procs, some e)
+  | (ls, none) => runGoals call ls.tx.goals (commit ls.procs ls.tx.clauses)
 
 end PrologVerif.Load
